@@ -56,6 +56,8 @@ def cases(tier, seed):
             cfg["scaler"] = float(np.exp(rng.uniform(np.log(1e-2), np.log(1e2))))
         if chain and rng.random() < 0.3:
             cfg["restart_maxcor"] = int(rng.integers(1, cfg["maxcor"] + 1))
+        if i % 5 == 2:
+            cfg["reuse_grad_buffer"] = True  # the user's gradient code fills one preallocated array and returns it at every call
         yield {"kind": "run", "problem": ps, "cfg": cfg, "chain": chain}
     # memory reboots: starved line searches with a demanding curvature test on small non-convex problems, so that a rejected pair is
     # often followed at once by a failed line search (the history is then rebuilt from one point) and by further iterations
